@@ -392,6 +392,8 @@ H("endpoint_first_initial_native", ["C07", "C14", "C09"], "replay-only", "endpoi
   [("len_", "u16")], 4, [], ["Endpoint::handle", "Endpoint::handle_first_packet"], "native replay body of E2 query e2_endpoint_first_initial")
 H("conn_handle_packet_tail_native", ["C08"], "replay-only", "connection::handle_packet_tail_native",
   [("x", "u8")], 4, [], ["Connection::handle_packet"], "native replay body of E2 slice query e2_handle_packet_tail")
+H("conn_retry_native", ["C14", "C04", "C12"], "replay-only", "connection::retry_native",
+  [("valid", "bool"), ("authed_before", "u8")], 4, [], ["Connection::process_decrypted_packet (Retry arm)"], "native replay body of E2 slice queries e2_retry_acceptance_slice / e2_retry_resets_initial_space_slice")
 H("conn_peer_params_cid_auth_native", ["C14", "C04"], "replay-only", "connection::peer_params_cid_auth_native",
   [("server", "bool"), ("which", "u8")], 4, [], ["Connection::handle_peer_params"], "native replay body of E2 query e2_peer_params_cid_auth")
 
